@@ -210,7 +210,7 @@ def _const_gets(stmts) -> Set[str]:
     return out
 
 
-def _loop_vars(fis) -> Dict[int, Set[str]]:
+def _loop_vars(fis, lenient=False) -> Dict[int, Set[str]]:
     """per function (id of its node): names bound by `for x in <...>` / comprehensions - the records of a record list"""
     out: Dict[int, Set[str]] = {}
     for f in fis:
@@ -218,14 +218,17 @@ def _loop_vars(fis) -> Dict[int, Set[str]]:
         for n in ast.walk(f.node):
             if isinstance(n, (ast.For, ast.comprehension)) and isinstance(n.target, ast.Name):
                 names.add(n.target.id)
+        # a private helper that is handed one record (`_read_edge_record(H, edge, weighted)`): its parameters may be records
+        if lenient and f is not fis[0] and f.name.startswith("_"):
+            names |= {a.arg for a in f.params}
         out[id(f.node)] = names
     return out
 
 
-def _record_keys_read(fis) -> Set[str]:
+def _record_keys_read(fis, lenient=False) -> Set[str]:
     """constant keys looked up on a record (a loop variable): r["k"], r.get("k"), "k" in r"""
     out = set()
-    lv = _loop_vars(fis)
+    lv = _loop_vars(fis, lenient)
     for f in fis:
         names = lv[id(f.node)]
         for n in ast.walk(f.node):
@@ -310,7 +313,20 @@ def check_json_schema(ctx, res: Result):
         res.unknown("S-JSONKEYS", save.short, "record keys", "record-keys", f"record displays of the writer ({sorted(wkeys)}) / record lookups of the reader ({sorted(rkeys)}) not recognised", loc(save, save.node))
     else:
         res.check(rkeys <= wkeys, "S-JSONKEYS", load.short, f"record keys read {sorted(rkeys)}", "record-keys", f"the reader reads record keys {sorted(rkeys - wkeys)} that the writer never writes (writer: {sorted(wkeys)})", loc(load, load.node))
-        res.check(wkeys <= rkeys, "S-JSONKEYS", save.short, f"record keys written {sorted(wkeys)}", "record-keys", f"the writer writes record keys {sorted(wkeys - rkeys)} that the reader never reads", loc(save, save.node))
+        rk_all = rkeys | _record_keys_read(ld.fis, lenient=True)
+        # the reader looks records up by computed key (`for field in header: if field in record: ... record[field]`):
+        # which keys it reads is then not visible in the lookups
+        lvl = _loop_vars(ld.fis, lenient=True)
+        computed = any(
+            (isinstance(n, ast.Subscript) and isinstance(n.value, ast.Name) and n.value.id in lvl[id(f_.node)] and not isinstance(n.slice, (ast.Constant, ast.Slice)))
+            or (isinstance(n, ast.Compare) and len(n.ops) == 1 and isinstance(n.ops[0], (ast.In, ast.NotIn)) and isinstance(n.comparators[0], ast.Name) and n.comparators[0].id in lvl[id(f_.node)] and not isinstance(n.left, ast.Constant))
+            for f_ in ld.fis
+            for n in ast.walk(f_.node)
+        )
+        if computed and not wkeys <= rk_all:
+            res.unknown("S-JSONKEYS", save.short, f"record keys written {sorted(wkeys)}", "record-keys", f"the reader looks records up by computed key; reads of {sorted(wkeys - rk_all)} were not recognised", loc(save, save.node))
+            rk_all = rk_all | wkeys
+        res.check(wkeys <= rk_all, "S-JSONKEYS", save.short, f"record keys written {sorted(wkeys)}", "record-keys", f"the writer writes record keys {sorted(wkeys - rkeys)} that the reader never reads", loc(save, save.node))
     # node / edge record discriminators
     for val in ("node", "edge"):
         w = any(any(isinstance(k, ast.Constant) and k.value == "type" and isinstance(v, ast.Constant) and v.value == val for k, v in zip(n.keys, n.values)) for n in wdicts)
